@@ -210,6 +210,20 @@ func (C07) Generate(r *rand.Rand, tier string, idx int) *drv.Scenario {
 		}
 	}
 	sc := &drv.Scenario{Family: fam, Knobs: baseKnobs(r), Steps: steps, Fixed: 2}
+	if idx%4 == 1 {
+		// store-error swarm: some repo-level requests meet one failing metadata/data write (disk error, full disk).
+		// A request answered with an error must still leave the graph as it was.  Own PRNG: the draws above are unchanged.
+		fr := drv.NewRNG(uint64(idx)*7919 + 13)
+		for i := range steps {
+			switch steps[i].Op {
+			case "c7newver", "c7branch", "c7merge", "c7commit", "c7tag", "c7inst", "c7note", "c7log", "c7repo":
+				if fr.IntN(4) == 0 {
+					steps[i].F = &proto.FaultPlan{ErrAtOp: 1 + fr.IntN(4), ErrMatch: "Put"}
+				}
+			}
+		}
+		sc.Family = fam + "+store-errors"
+	}
 	return sc
 }
 
@@ -631,6 +645,11 @@ func (x *c7Exec) step(op drv.Op) (*drv.Violation, error) {
 	var st int
 	var rb []byte
 	var err error
+	if op.F != nil {
+		if err := w.SetFaults(op.F); err != nil {
+			return nil, err
+		}
+	}
 	if rpc != nil {
 		var txt string
 		st, txt, err = w.RPC(nil, rpc...)
@@ -643,12 +662,23 @@ func (x *c7Exec) step(op drv.Op) (*drv.Violation, error) {
 	if err != nil {
 		return nil, err
 	}
+	faultTag := ""
+	if op.F != nil {
+		if err := w.SetFaults(&proto.FaultPlan{}); err != nil {
+			return nil, err
+		}
+		desc += fmt.Sprintf(" [the %d. store write of this request fails]", op.F.ErrAtOp)
+		faultTag = " under a failing store write"
+	}
 	ok := st >= 200 && st < 300
 	if ok {
 		onOK(rb)
 	} else {
 		x.nRejected++
 		w.Stats.Probe("rejected:" + op.Op)
+		if op.F != nil {
+			w.Stats.Probe("rejected-under-store-error:" + op.Op)
+		}
 	}
 	repos, na, err := x.snapshot()
 	if err != nil {
@@ -659,7 +689,7 @@ func (x *c7Exec) step(op drv.Op) (*drv.Violation, error) {
 			fmt.Sprintf("request: %s -> %d %s\n%s\ngraph:\n%s", desc, st, trunc(rb), det, na)), nil
 	}
 	if !ok && na != x.normB {
-		return c7v("error-leaves-unchanged", "rejected "+op.Op+argKinds(op)+" changed the graph",
+		return c7v("error-leaves-unchanged", "rejected "+op.Op+argKinds(op)+faultTag+" changed the graph",
 			fmt.Sprintf("request: %s -> %d %s\nbefore:\n%s\nafter:\n%s", desc, st, trunc(rb), x.normB, na)), nil
 	}
 	existedBefore := false
